@@ -224,5 +224,36 @@
             let out = env.render_named_str("t.json", "{{ v }}", crate::context! { v => v.clone() }).unwrap();
             let parsed: serde_json::Value = serde_json::from_str(&out).unwrap_or_else(|e| panic!("json auto-escape of {v:?} invalid ({e}): {out}"));
             assert!(parsed == serde_json::to_value(v).unwrap());
+        }        // every other value kind at the top level of tojson: lazy iterables (sized and not), one-shot iterators, plain
+        // objects (serialised through Display), byte strings, tuples, values produced by filters inside the template
+        {
+            use crate::value::{Object, ObjectRepr};
+            use std::sync::Arc;
+            #[derive(Debug)]
+            struct PlainThing;
+            impl std::fmt::Display for PlainThing { fn fmt(&self, f: &mut std::fmt::Formatter<'_>) -> std::fmt::Result { f.write_str("<plain & 'thing'>") } }
+            impl Object for PlainThing { fn repr(self: &Arc<Self>) -> ObjectRepr { ObjectRepr::Plain } }
+            let makers: Vec<(&str, Box<dyn Fn() -> Value>)> = vec![
+                ("lazy iterable", Box::new(|| Value::make_iterable(|| vec!["<a>", "b & 'c'"].into_iter().map(Value::from)))),
+                ("one-shot iterator", Box::new(|| Value::make_one_shot_iterator(vec!["<a>", "b & 'c'"].into_iter().map(Value::from)))),
+                ("plain object", Box::new(|| Value::from_object(PlainThing))),
+                ("tuple", Box::new(|| Value::from(crate::value::Tuple::from(vec![Value::from("<"), Value::from("&'")])))),
+                ("nested lazy", Box::new(|| Value::from(vec![Value::make_iterable(|| vec!["<>"].into_iter().map(Value::from)), Value::from_object(PlainThing)]))),
+                ("map of lazy", Box::new(|| Value::from(BTreeMap::from([("<k>", Value::make_iterable(|| vec!["'&'"].into_iter().map(Value::from)))])))),
+            ];
+            for (what, mk) in &makers {
+                for expr in ["v|tojson", "v|tojson(true)", "v|tojson(indent=2)"] {
+                    let out = env.compile_expression(expr).unwrap().eval(crate::context! { v => mk() }).unwrap().to_string();
+                    assert!(!out.contains('<') && !out.contains('>') && !out.contains('&') && !out.contains('\''), "{expr} of a {what} contains an HTML metacharacter: {out}");
+                    let parsed: serde_json::Value = serde_json::from_str(&out).unwrap_or_else(|e| panic!("{expr} of a {what} is not valid JSON ({e}): {out}"));
+                    assert!(parsed == serde_json::to_value(mk()).unwrap(), "{expr} of a {what}: parsed {parsed}");
+                }
+            }
+            for expr in ["xs|reverse|tojson", "xs|map('string')|tojson", "xs|select|tojson", "(xs + xs)|tojson", "xs[::-1]|tojson", "xs|batch(1)|tojson", "xs|first|tojson", "(xs|join('<'))|tojson",
+                         "{'<k>': xs|reverse}|tojson", "xs|items|tojson if false else xs|list|tojson", "dict(a=xs|reverse)|tojson", "namespace(a=xs[0])|tojson if false else 1|tojson", "xs|unique|tojson", "xs|sort|tojson(indent=1)"] {
+                let out = env.compile_expression(expr).unwrap().eval(crate::context! { xs => vec!["<a>", "b & 'c'"] }).unwrap().to_string();
+                assert!(!out.contains('<') && !out.contains('>') && !out.contains('&') && !out.contains('\''), "{expr} contains an HTML metacharacter: {out}");
+                let _: serde_json::Value = serde_json::from_str(&out).unwrap_or_else(|e| panic!("{expr} is not valid JSON ({e}): {out}"));
+            }
         }
     }
